@@ -13,7 +13,9 @@ Record istep := { i_step : hstep; i_rpc : N; i_obs : obs; i_calls : list bcall;
                   i_nh : N;                     (* number of live handles after the step *)
                   i_reslen : N;                 (* length in bytes of the encoded result (after the RPC reply header) *)
                   i_dump : list dump_entry;
-                  i_obs2 : option obs           (* the same request on a twin server with minimal caches (C02) *) }.
+                  i_obs2 : option obs;          (* the same request on a twin server with minimal caches (C02) *)
+                  i_crash : list (list dump_entry); (* C22: what a crash would leave, after each backend call of the step *)
+                  i_verf : option N             (* write verifier carried by a WRITE / COMMIT reply *) }.
 Record case := { c_cfg : cfg; c_maxh : Z; c_init : list dump_entry (* tree before the first request *); c_steps : list istep }.
 
 (* the model's initial tree from the implementation's initial dump (all contents durable, mtime = clock0) *)
